@@ -14,6 +14,9 @@ from aiomysensors.model.protocol import get_protocol
 from aiomysensors.transport import Transport
 
 from .core import HarnessError
+from . import timefreeze
+
+timefreeze.default()  # no check ever sees the real wall clock
 
 VERSIONS = ("1.4", "1.5", "2.0", "2.1", "2.2")
 
@@ -271,3 +274,87 @@ def enc(node, child, cmd, ack, typ, payload="") -> str:
 
 def reset_caches() -> None:
     get_protocol.cache_clear()
+
+
+# ---------------------------------------------------------------------------
+# transport for the virtual loop (E2)
+
+
+class AsyncScriptTransport(Transport):
+    """Transport whose reads and writes suspend until the explorer completes them.
+
+    In `sync` mode (set-up and final phases) it behaves like ScriptTransport. The write log is in
+    invocation order: the order in which bytes reach a real StreamWriter / MQTT publish call."""
+
+    def __init__(self, loop) -> None:
+        self.loop = loop
+        self.sync = True
+        self.lines: deque[str] = deque()
+        self.log: list[str] = []  # every write, in invocation order
+        self.done: list[str] = []  # writes that completed successfully
+        self.pending_writes: list[list] = []  # [future, line]
+        self.pending_read = None
+        self.connected = False
+        self.connect_error: BaseException | None = None
+        self.disconnect_error: BaseException | None = None
+        self.calls: list[str] = []
+
+    async def connect(self) -> None:
+        self.calls.append("connect")
+        if self.connect_error is not None:
+            raise self.connect_error
+        self.connected = True
+
+    async def disconnect(self) -> None:
+        self.calls.append("disconnect")
+        self.connected = False
+        if self.disconnect_error is not None:
+            raise self.disconnect_error
+
+    async def read(self) -> str:
+        if self.sync:
+            if not self.lines:
+                raise ScriptExhausted
+            return self.lines.popleft()
+        fut = self.loop.create_future()
+        self.pending_read = fut
+        try:
+            return await fut
+        finally:
+            if self.pending_read is fut:
+                self.pending_read = None
+
+    async def write(self, decoded_message: str) -> None:
+        self.log.append(decoded_message)
+        if self.sync:
+            self.done.append(decoded_message)
+            return
+        fut = self.loop.create_future()
+        entry = [fut, decoded_message]
+        self.pending_writes.append(entry)
+        try:
+            await fut
+            self.done.append(decoded_message)
+        finally:
+            if entry in self.pending_writes:
+                self.pending_writes.remove(entry)
+
+    # explorer side
+    def deliver(self, line: str) -> None:
+        fut = self.pending_read
+        if fut is None or fut.done():
+            raise HarnessError("no pending read")
+        self.pending_read = None
+        fut.set_result(line)
+
+    def fail_read(self, exc: BaseException) -> None:
+        fut = self.pending_read
+        self.pending_read = None
+        fut.set_exception(exc)
+
+    def complete_write(self, idx: int, ok: bool = True) -> None:
+        fut, line = self.pending_writes.pop(idx)
+        if ok:
+            fut.set_result(None)
+        else:
+            fut.set_exception(InjectedWriteFault("injected write fault"))
